@@ -1,5 +1,5 @@
-(* The ar member-header parser with Go's exact strings.TrimSpace (UTF-8 aware, V11) on the name, mode and
-   numeric columns.  This is what the tie executes; on a header that contains no encoding of a non-ASCII
+(* The ar member-header parser with Go's exact strings.TrimSpace (UTF-8 aware, V11) on the mode and
+   numeric columns (the name column is trimmed by strings.TrimRight(x, " "), which is byte-wise).  This is what the tie executes; on a header that contains no encoding of a non-ASCII
    Unicode space it is AR.parse_entry, about which the C13/C15 theorems are stated. *)
 From Coq Require Import List Ascii String Bool Arith ZArith Lia.
 Require Import GS V11 R2u AR AR3.
@@ -15,7 +15,7 @@ Definition parse_entry_u (off : nat) (line : str) : option entry :=
     match field_num_u (sub line 16 12), field_num_u (sub line 28 6), field_num_u (sub line 34 6), field_num_u (sub line 48 10) with
     | Some ts, Some uid, Some gid, Some size =>
         if (size <? 0)%Z then None
-        else Some {| e_name := trim_suffix [slash] (trim_space_u (sub line 0 16));
+        else Some {| e_name := trim_suffix [slash] (trim_right_sp (sub line 0 16));
                      e_ts := ts; e_uid := uid; e_gid := gid;
                      e_mode := trim_space_u (sub line 40 8); e_size := size; e_hdr := off |}
     | _, _, _, _ => None
